@@ -5,19 +5,22 @@ CONSTANTS Afters      \* extra delays (ms) after the crash point is reached
 Trees == {"", "il()", "il(il())dil()", "sil()gil()"}     \* descendants that ignore signals, daemonise, change session/group
 ExecPoints == {"exec.send", "exec.recv", "exec.cb", "exec.oksend", "exec.wait"}
 Cases ==
-       { [kind |-> "container", point |-> p, sa |-> FALSE, tree |-> "", after |-> a] :
-            p \in {"idle", "ping.send", "ping.recv", "open.recv"}, a \in Afters }
-  \cup { [kind |-> "container", point |-> p, sa |-> sa, tree |-> tr, after |-> a] :
-            p \in ExecPoints, sa \in BOOLEAN, tr \in Trees, a \in Afters }
-  \cup { [kind |-> k, point |-> "run", sa |-> FALSE, tree |-> tr, after |-> a] :
+       { [kind |-> "container", point |-> p, sa |-> FALSE, tree |-> "", after |-> a, drop |-> dr] :
+            p \in {"idle", "ping.send", "ping.recv", "open.recv"}, a \in Afters, dr \in BOOLEAN }
+  \cup { [kind |-> "container", point |-> p, sa |-> sa, tree |-> tr, after |-> a, drop |-> dr] :
+            p \in ExecPoints, sa \in BOOLEAN, tr \in Trees, a \in Afters, dr \in BOOLEAN }
+  \cup { [kind |-> k, point |-> "run", sa |-> FALSE, tree |-> tr, after |-> a, drop |-> FALSE] :
             k \in {"ptrace"}, tr \in Trees, a \in Afters \cup {1, 3, 7, 20} }
   \* the controller dies inside the caller's sync callback: the launcher's child is parked before exec
-  \cup { [kind |-> k, point |-> "cb", sa |-> FALSE, tree |-> "", after |-> a] : k \in {"ptrace", "unshare"}, a \in Afters \cup {10} }
+  \cup { [kind |-> k, point |-> "cb", sa |-> FALSE, tree |-> "", after |-> a, drop |-> FALSE] : k \in {"ptrace", "unshare"}, a \in Afters \cup {10} }
 \* (At the sync point both runners' child is still the launcher's own code, waiting on the sync socket: it
 \*  ends on EOF.  Once the program runs, the namespace runner -- runner/unshare -- has no parent-death
 \*  mechanism: its program survives the death of the process that started it.  Observed on the unchanged
 \*  tree; C16 as stated speaks of the process that controls a container or traces a program, so "unshare
 \*  while running" is recorded in DESIGN.md and not judged.)
+\* drop = TRUE: the controller gives up its privileges after building the environment; the kernel then refuses
+\* to deliver the parent-death signal to the root-owned init, so the end of the control stream alone must end
+\* the container (ContainerProto!SpecNoPdeathsig |= HostDeathKillsAll)
 ASSUME ndJsonSerialize("cases.ndjson", SetToSeq(Cases))
 VARIABLE x
 Init == x = 0
